@@ -11,10 +11,10 @@ TECH = "deterministic simulation with fault injection (seeded schedule/fault sea
 # id -> (category, technique, text, note, design_ref)
 CLAIMED = {
     "C02": ("exploration", TECH,
-            "Seeded search over entry multisets, per-replica permutations with duplicates, ingress paths (local / remote / in-message), clean restarts, flushes and age-commit placements against the RefDoc reference model: every offer result and every dumped state must equal the model, and all replicas must agree with join(E). Exploration is the right level: the space of orders is unbounded, the model is tiny and exact.",
+            "Seeded search over entry multisets, per-replica permutations with duplicates, ingress paths (local / remote / in-message), clean restarts, flushes and age-commit placements against the RefDoc reference model: every offer result and every dumped state must equal the model, and all replicas must agree with join(E). The stores also hold neighbour documents (smaller and larger ids, ids ending in 0xFF) that take writes in between and must stay untouched. Exploration is the right level: the space of orders is unbounded, the model is tiny and exact.",
             "Trusted: redb, ed25519 (deterministic signatures), postcard; entries with equal (timestamp, hash) but different length are outside the generator.", "5 C02"),
     "C13": ("exploration", TECH,
-            "Same histories as C02 (older entries after newer ones, duplicates, restarts, age-commits); at check points the reported heads must equal the greatest held timestamp per author and has_news_for_us must equal the brute-force count; plus encode/decode of head sets under size limits (pure part, labelled).",
+            "Same histories as C02 (older entries after newer ones, duplicates, restarts, age-commits); at check points the reported heads must equal the greatest held timestamp per author and has_news_for_us must equal the brute-force count; plus encode/decode of head sets of up to 320 authors under size limits placed at, one below and one above item boundaries (pure part, labelled).",
             "Head key is not checked (the statement does not constrain it). Limits below the 1-byte minimum encoding are not generated.", "5 C13"),
 }
 
@@ -23,7 +23,7 @@ CLAIMED.update({
             "Two real replicas (redb in-memory / SimDisk / file) are filled to reachable states and run one complete session through a serialise/deserialise hop, for both initiators, split_factor 2-8, max_set_size 1-8 and age-commit placements inside message processing; oracles: bounded message count, both sides equal join(A0 u B0) from RefDoc, mirrored sent/received counts, silent second session.",
             "States have at most 24 entries per side; convergence for larger sets rests on the recursion being size independent.", "5 C01"),
     "C03": ("exploration", TECH,
-            "An adversarial transport corrupts honest entries in flight (bit flips in every field and both signatures, swapped/transplanted/foreign signatures, foreign namespace, non-curve ids, empty/len mismatch, short identifiers, timestamps at bound-1/bound/bound+1 us with the replica's clock skewed accordingly) and delivers each alone and at a random position of a reconciliation message next to valid entries, through the real store actor with subscribers; nothing forged may be stored, acknowledged or announced, the rest of the message must be applied, indexes and heads must stay consistent.",
+            "An adversarial transport corrupts honest entries in flight (bit flips in every field and both signatures, swapped/transplanted/foreign signatures, foreign namespace, non-curve ids, empty/len mismatch, short identifiers, one signature copied over the other, new content forged under another author's id by a holder of the document secret, a valid entry of a different document, timestamps at bound-1/bound/bound+1 us with the replica's clock skewed accordingly) and delivers each alone and at a random position of a reconciliation message next to valid entries, through the real store actor with subscribers; nothing forged may be stored, acknowledged or announced, the rest of the message must be applied, indexes and heads must stay consistent.",
             "Forgeries are mutations of honest entries; ed25519 itself is trusted.", "5 C03"),
     "C05": ("exploration", TECH,
             "Random queries (kind x author filter x key filter x sort x direction x include-empty x offset x limit, plus point lookups) against states reached through pruning histories (stale index rows), clean restarts and derived-index rebuilds, compared with a brute-force evaluator over the RefDoc model. The simulator contributes the states; the decisive dimension for the query itself is input generation, which the evidence says.",
@@ -32,13 +32,13 @@ CLAIMED.update({
             "Histories of read/write capability imports (right and other documents), local/remote/in-message writes, open/close, clean restarts, flush+crash restarts and removal over 2-4 documents against the RefStore model: local writes succeed iff the model capability is Write, remote entries are accepted regardless, the listed capability never downgrades and never changes for another document. A second batch drives the real store actor with imports while documents are open (the actor keeps its own in-memory copy of the capability) and judges the replies to writes, deletions, secret export and imports.",
             "The actor batch was added after an independently seeded change (read-only import downgrading an open replica) was missed by the store-level batch alone.", "5 C07"),
     "C08": ("exploration", TECH,
-            "The same two entry sets are reconciled over redb in-memory, SimDisk/file-backed redb and a harness-side BTreeMap backend that is driven by the crate's own reconciliation routine through a guarded adapter; postcard bytes of every message and the final sets must be identical; additionally get_first/get_range (all three shapes)/get_fingerprint/prefixes_of/remove_prefix_filtered are probed directly against the ordered-map definitions.",
+            "The same two entry sets are reconciled over redb in-memory, SimDisk/file-backed redb (each holding neighbour documents with smaller and larger ids as well) and a harness-side BTreeMap backend that is driven by the crate's own reconciliation routine through a guarded adapter; postcard bytes of every message and the final sets must be identical; additionally get_first/get_range (all three shapes)/get_fingerprint/prefixes_of/remove_prefix_filtered are probed directly against the ordered-map definitions, range bounds taken from any namespace (they come from the peer), prefix arguments from the reconciled document.",
             "The entry fingerprint function is re-implemented in the harness (a change of it is a wire-compatibility break and is reported).", "5 C08"),
     "C15": ("exploration", TECH,
             "set/get_download_policy inside RefStore histories with clean restarts, flush+crash restarts, removal and re-creation: the policy read back equals the last one set, defaults otherwise, and is refused for a missing document; matching and the textual form of filters are compared with the brute-force definition (pure part, labelled); a third batch checks the should_download flag of remote-insert events of the real store actor against the policy in force under policy changes.",
             "Crash restarts are always preceded by a flush here (loss of unflushed data is C06's subject).", "5 C15"),
     "C16": ("exploration", TECH,
-            "Histories over 2-4 documents with adjacent ids: writes, policies, peers, open/close, remove (open and closed), re-create, restarts. Removal must be refused while open, leave no observable residue (entries, both query paths, heads, peers, policy, capability), leave every other document byte-identical, and content_hashes must equal the hashes of all held entries at every observation.",
+            "Histories over 2-4 documents with adjacent ids: writes, policies, peers, open/close, remove (open and closed), re-create, restarts. Removal must be refused while open, leave no observable residue (entries, both query paths, heads, peers, policy, capability), leave every other document byte-identical, and content_hashes must equal the hashes of all held entries at every observation. Half of the document and author ids end in 0xFF (carry case of the range bounds). A second batch removes documents through the real store actor (close counting, removal refused while any handle is open).",
             "Document ids are real public keys (crafted ids are not reachable through the public API for entries).", "5 C16"),
     "C17": ("exploration", TECH,
             "Registration sequences over 1-9 peers and 2-4 documents with restarts against an MRU-list model, with a strictly increasing simulated clock (decisive batch) and, as a separate batch, clock stalls and backward jumps between registrations.",
